@@ -157,7 +157,7 @@ def replay(pname, prog, model):
     db = get_db(pname)
     e1.populate(db, model['tables'])
     try:
-        real = e1.run_real(db, prog, model['scope'])
+        real = e1.run_real(db, prog, model['scope'], model.get('colnames'))
     except Exception as ex:
         return None, 'real query raised %s: %s' % (type(ex).__name__, str(ex)[:100]), None
     real_n, py_n, pred_n = e1.norm_rows(real), e1.norm_rows(model['python_rows']), e1.norm_rows(model['sql_rows_predicted'])
@@ -178,13 +178,22 @@ sys.exit(1 if rep else 0)
 '''
 
 
-def check_program(db, S, prog, dialect, pname, timeout_ms, validate=True):
+def check_program(db, S, prog, dialect, pname, timeout_ms, validate=True, exclude=()):
+    """exclude: known-finding keys of ANOTHER property whose input regions are assumed away (they are not this check's subject)"""
     name = '%s: %s' % (dialect, prog.src)
-    res = e1.decide(db, S, prog, dialect, timeout_ms)
+    res = e1.decide(db, S, prog, dialect, timeout_ms, exclude_regions=exclude)
     v = res['verdict']
     obs = []
     if v == 'rejected': return [Ob(name, 'z3', REJECTED, detail=res['detail'])]
-    if v == 'unmodelled': return [Ob(name, 'z3', INCONCLUSIVE, detail='unmodelled: ' + res['detail'])]
+    if v == 'unmodelled':
+        if pname == 'sqlite':
+            # does the real engine accept the statement at all?  A database error is the property's "raises an error instead"
+            try:
+                e1.run_real(db, prog, {})
+            except Exception as ex:
+                if type(ex).__name__ in ('OperationalError', 'ProgrammingError', 'DatabaseError', 'InterfaceError'):
+                    return [Ob(name, 'z3', REJECTED, detail='the database rejects the generated SQL: %s: %s' % (type(ex).__name__, str(ex)[:100]))]
+        return [Ob(name, 'z3', INCONCLUSIVE, detail='unmodelled: ' + res['detail'])]
     if v == 'unknown': return [Ob(name, 'z3', INCONCLUSIVE, detail=res.get('detail', '') + ' | ' + (res.get('sql') or ''), time_s=res['time_s'])]
     if v == 'unsat':
         ob = Ob(name, 'z3', HOLDS, detail=res['sql'], time_s=res['time_s'])
